@@ -142,7 +142,7 @@ class C04(Property):
             res.append(dict(self._rest(cp, [], "deadline", pos), paths_done=True))
             res.append(dict(self._rest(cp, [], "race", pos, yld=pos), paths_done=True))
         res.append(dict(self._rest(cp, [], "cancel", 2, req="sse", fl=True), paths_done=True))
-        return self._assign_paths(self._assign_shapes(res + self._cross_product()))
+        return self._assign_names(self._assign_paths(self._assign_shapes(res + self._cross_product())))
 
     @staticmethod
     def _expand(script, hobs=None):
@@ -212,6 +212,39 @@ class C04(Property):
                 for i, q in enumerate(c["reqs"]):
                     q["script"] = conv(q["script"], i)
                 c["paths_done"] = True
+        return cases
+
+    HEADER_VOCAB = ["Access-Control-Allow-Origin", "Access-Control-Allow-Headers", "Access-Control-Allow-Methods",
+                    "Access-Control-Allow-Credentials", "Access-Control-Expose-Headers", "Vary", "Content-Type",
+                    "Content-Length", "Content-Encoding", "Set-Cookie", "Cache-Control", "Connection", "Upgrade",
+                    "Trailer", "Transfer-Encoding", "X-Content-Type-Options", "Sec-Websocket-Accept",
+                    "Sec-Websocket-Protocol", "Retry-After", "Location", "Www-Authenticate", "Etag", "Last-Modified",
+                    "Date", "Server", "Link", "X-Trace-Id"]
+
+    def _assign_names(self, cases):
+        """header NAMES are inputs: in ~3 of 4 REST / sequence / server cases the scripts' header keys 1..4 go by
+        real header names some layer might special-case (CORS, content negotiation, cookies, hop-by-hop, ...),
+        in canonical, lower-case or upper-case spelling; half of those cases have at least one Access-Control-*
+        name.  Chosen by hash.  Server cases keep clear of the three names an SSE route sets itself."""
+        for c in cases:
+            if c.get("kind") not in ("rest", "seq", "srv") or "names" in c:
+                continue
+            h = int(vlib.canon_hash(c), 16)
+            if h % 4 == 0:
+                c["names"] = {}
+                continue
+            vocab = list(self.HEADER_VOCAB)
+            if c["kind"] == "srv":
+                own = set(n for n, _v in self.consts["sse_headers"])
+                vocab = [n for n in vocab if n not in own]
+            names, h = {}, h // 4
+            for k in (1, 2, 3, 4):
+                pool = vocab[:5] if (k == 1 and h % 2 == 0) else vocab
+                n = pool[(h // 3) % len(pool)]
+                h = h // 29 + 7 * k
+                vocab.remove(n)
+                names[str(k)] = (n, n.lower(), n.upper())[h % 3]
+            c["names"] = names
         return cases
 
     SHAPES = ["plain", "plain", "plain", "value", "cause", "cause", "cause_nil", "nested", "nested", "detached"]
@@ -378,7 +411,7 @@ class C04(Property):
         cases += self._gen_sseq(rng, (n * 12) // 100)
         if self._slots_enabled():
             cases += self._gen_slots(rng, n - len(cases))
-        return self._assign_paths(self._assign_shapes(cases))
+        return self._assign_names(self._assign_paths(self._assign_shapes(cases)))
 
     # sequences: several requests through one middleware instance --------------------
     def _seq_script(self, rng, who, full):
@@ -1164,6 +1197,10 @@ class C04(Property):
 
     def features(self, case, obs):
         fs = ["kind=" + case["kind"]]
+        if case.get("names"):
+            fs.append("hdrnames=" + case["kind"])
+            if any(n.lower().startswith("access-control-") for n in case["names"].values()):
+                fs.append("hdrnames:cors=" + case["kind"])
         for u in [case] + list(case.get("reqs", [])) + list(case.get("calls", [])):
             if u.get("pshape"):
                 fs.append("ctx=%s:%s" % (case["kind"], u["pshape"]))
